@@ -22,28 +22,38 @@ fn snap(ex: &CommandExecutor, key: &str) -> Snap {
 }
 fn is_err(r: &RespValue) -> bool { matches!(r, RespValue::Error(_)) }
 
-/// keyspace: "s" string (one symbolic byte), "l" list [x], "h" hash {f: x}, "t" set {m}; "l" carries a deadline
-fn world() -> CommandExecutor {
+/// keyspace built by direct insertion: any subset of "s" string (one symbolic byte), "l" list [x] carrying a
+/// deadline, "h" hash {f: x}, "t" set {m} - each harness builds only the keys it touches plus one bystander
+/// (a smaller world keeps the solver query small; the oracle compares every key that exists)
+fn world_of(keys: &[u8]) -> CommandExecutor {
     let mut ex = CommandExecutor::verif_new_bare();
     ex.update_time_readonly(VirtualTime::from_millis(10));
     let x = vs::u8();
-    ex.verif_data_mut().insert("s".to_string(), Value::String(sds1(x)));
-    let mut l = RedisList::new(); l.rpush(sds1(x));
-    ex.verif_data_mut().insert("l".to_string(), Value::List(l));
-    let mut h = RedisHash::new(); h.set(sds1(b'f'), sds1(x));
-    ex.verif_data_mut().insert("h".to_string(), Value::Hash(h));
-    let mut t = RedisSet::new(); t.add(sds1(b'm'));
-    ex.verif_data_mut().insert("t".to_string(), Value::Set(t));
-    let d = vs::u64();
-    vs::assume(d > 10 && d < (1u64 << 40));
-    ex.verif_expirations_mut().insert("l".to_string(), VirtualTime::from_millis(d));
+    let mut i = 0;
+    while i < keys.len() {
+        match keys[i] {
+            b's' => { ex.verif_data_mut().insert("s".to_string(), Value::String(sds1(x))); }
+            b'l' => {
+                let mut l = RedisList::new(); l.rpush(sds1(x));
+                ex.verif_data_mut().insert("l".to_string(), Value::List(l));
+                let d = vs::u64();
+                vs::assume(d > 10 && d < (1u64 << 40));
+                ex.verif_expirations_mut().insert("l".to_string(), VirtualTime::from_millis(d));
+            }
+            b'h' => { let mut h = RedisHash::new(); h.set(sds1(b'f'), sds1(x)); ex.verif_data_mut().insert("h".to_string(), Value::Hash(h)); }
+            _ => { let mut t = RedisSet::new(); t.add(sds1(b'm')); ex.verif_data_mut().insert("t".to_string(), Value::Set(t)); }
+        }
+        i += 1;
+    }
     ex
 }
+fn world() -> CommandExecutor { world_of(b"slht") }
 
 /// string-family operations on wrong-typed keys, and list/hash/set operations on the string key:
 /// reply is an error and nothing changes. `op` selects the operation.
 pub fn wrong_type(op: u8) {
-    let mut ex = world();
+    let keys: &[u8] = match op { 0 | 2 | 10 | 11 => b"ls", 1 | 9 => b"hl", 3 | 13 => b"tl", 4 | 5 | 8 => b"sl", 6 => b"ls", 7 => b"hl", _ => b"ls" };
+    let mut ex = world_of(keys);
     let before = [snap(&ex, "s"), snap(&ex, "l"), snap(&ex, "h"), snap(&ex, "t")];
     let n = vs::i64();
     let i = vs::isize();
@@ -74,7 +84,8 @@ pub fn wrong_type(op: u8) {
 /// 2 LSET out of range, 3 SETRANGE beyond 512MB, 4 SET with invalid PX, 5 EXPIRE out of range,
 /// 6 HINCRBY on a non-numeric field, 7 SET EX beyond the representable range on a list key, 8 same on a missing key
 pub fn bad_args(op: u8) {
-    let mut ex = world();
+    let keys: &[u8] = match op { 0 | 1 | 3 => b"sl", 2 | 4 | 5 | 7 | 8 => b"ls", _ => b"hl" };
+    let mut ex = world_of(keys);
     if op == 0 { ex.verif_data_mut().insert("s".to_string(), Value::String(SDS::from_str("9223372036854775807"))); }
     let before = [snap(&ex, "s"), snap(&ex, "l"), snap(&ex, "h"), snap(&ex, "t")];
     let v = sds1(vs::u8());
@@ -99,11 +110,11 @@ pub fn bad_args(op: u8) {
 
 /// read-only operations leave everything as it was (on keys of every type, existing or not)
 pub fn read_only(op: u8) {
-    let mut ex = world();
+    let mut ex = world_of(b"sl");
     let before = [snap(&ex, "s"), snap(&ex, "l"), snap(&ex, "h"), snap(&ex, "t")];
     let which = vs::u8();
-    vs::assume(which < 5);
-    let key = match which { 0 => "s", 1 => "l", 2 => "h", 3 => "t", _ => "nokey" };
+    vs::assume(which < 3);
+    let key = match which { 0 => "s", 1 => "l", _ => "nokey" };
     let r = match op {
         0 => ex.verif_get(key),
         1 => ex.verif_strlen(key),
@@ -126,7 +137,7 @@ pub fn read_only(op: u8) {
 }
 
 pub fn twin() {
-    let mut ex = world();
+    let mut ex = world_of(b"s");
     let before = snap(&ex, "s");
     let v = sds1(b'z');
     let r = ex.verif_append("s", &v);
